@@ -70,6 +70,8 @@ package snps
 //@   loop 4:
 //@     invariant !failed(w) && len(sent(cWriteDone)) == 0
 //@     invariant len(written(w)) == 1 + count(k, 0, range_i, !(propMap[order[k]] / counter < threshold))
+//@   # C13: the table is in non-decreasing genomic position (the number between the two letters of each SNP), then by alternative base
+//@   after call:SliceStable#1: assert [c13.bypos] forall(a, 0, len(order), forall(b, a + 1, len(order), atoi(order[a][1:len(order[a])-1]) <= atoi(order[b][1:len(order[b])-1])))
 //@   after call:SliceStable#1: assert [keys.permuted] forall(j, 0, len(order), 0 <= sortperm(j) && sortperm(j) < len(order) && in(propMap, order[j]))
 //@   after call:Write#2: assert [row] !(propMap[snp] / counter < threshold) && written(w)[len(written(w))-1] == snp + "," + fmtfloat(propMap[snp] / counter) + "\n"
 //@   after call:Write#2: assert [c13.freq] counter == float64(len(recv(cSNPs))) && implies(snp == K, gOcc > 0 && written(w)[len(written(w))-1] == K + "," + fmtfloat(float64(gOcc) / float64(len(recv(cSNPs)))) + "\n")
